@@ -197,7 +197,7 @@ UserLedgerMustFail(w, from, lc) ==
 
 Class(w, tx) ==
   IF tx.gas = "tiny" \/ tx.kind = "create" THEN "full"
-  ELSE IF tx.lc.fn # "none" THEN (IF tx.from = "idx" THEN "status" ELSE "seen")
+  ELSE IF tx.lc.fn # "none" /\ Code(w, tx.to) \in {"ctrl", "tok"} THEN (IF tx.from = "idx" THEN "status" ELSE "seen")
   ELSE IF Code(w, tx.to) \in {"cell", "none", "empty"} THEN "full"
   ELSE "seen"
 
